@@ -350,31 +350,37 @@ package oidc
 //@   requires clean: !RFailed
 //@   modifies ghost RDB, ghost Clk, ghost RFailed, above(watermark())
 //@   ensures  faults_reported: result == nil ==> !RFailed
+//@   ensures  only_this_key: forall c int, k string :: (c != r.client.pay || k != sessionID) ==> RDB[c][k] == old(RDB)[c][k]
 //@ func (*redisStore).SetAuthorizationState
 //@   requires wf: r != nil && r.log != nil && r.clock != nil && r.client != nil && authorizationState != nil
 //@   requires clean: !RFailed
 //@   modifies ghost RDB, ghost Clk, ghost RFailed, above(watermark())
 //@   ensures  faults_reported: result == nil ==> !RFailed
+//@   ensures  only_this_key: forall c int, k string :: (c != r.client.pay || k != sessionID) ==> RDB[c][k] == old(RDB)[c][k]
 //@ func (*redisStore).ClearAuthorizationState
 //@   requires wf: r != nil && r.log != nil && r.clock != nil && r.client != nil
 //@   requires clean: !RFailed
 //@   modifies ghost RDB, ghost Clk, ghost RFailed, above(watermark())
 //@   ensures  faults_reported: result == nil ==> !RFailed
+//@   ensures  only_this_key: forall c int, k string :: (c != r.client.pay || k != sessionID) ==> RDB[c][k] == old(RDB)[c][k]
 //@ func (*redisStore).RemoveSession
 //@   requires wf: r != nil && r.log != nil && r.clock != nil && r.client != nil
 //@   requires clean: !RFailed
 //@   modifies ghost RDB, ghost Clk, ghost RFailed, above(watermark())
 //@   ensures  faults_reported: result == nil ==> !RFailed
+//@   ensures  only_this_key: forall c int, k string :: (c != r.client.pay || k != sessionID) ==> RDB[c][k] == old(RDB)[c][k]
 //@ func (*redisStore).GetTokenResponse
 //@   requires wf: r != nil && r.log != nil && r.clock != nil && r.client != nil
 //@   requires clean: !RFailed
 //@   modifies ghost RDB, ghost Clk, ghost RFailed, above(watermark())
 //@   ensures  faults_reported: result1 == nil ==> !RFailed
+//@   ensures  only_this_key: forall c int, k string :: (c != r.client.pay || k != sessionID) ==> RDB[c][k] == old(RDB)[c][k]
 //@ func (*redisStore).GetAuthorizationState
 //@   requires wf: r != nil && r.log != nil && r.clock != nil && r.client != nil
 //@   requires clean: !RFailed
 //@   modifies ghost RDB, ghost Clk, ghost RFailed, above(watermark())
 //@   ensures  faults_reported: result1 == nil ==> !RFailed
+//@   ensures  only_this_key: forall c int, k string :: (c != r.client.pay || k != sessionID) ==> RDB[c][k] == old(RDB)[c][k]
 
 // ---------------------------------------------------------------------------------------------
 // DefaultJWKSProvider implements JWKSProvider (C02): the key set handed to the handler is the one
